@@ -290,6 +290,7 @@ func genC05Regex(t *rapid.T) c05Case {
 
 func genC05Mask(t *rapid.T) c05Case {
 	m := genC03(t)
+	m.Variant = 0 // C05's witnesses are requests of type "other": no document-level modifiers here
 	c := c05Case{Rule: c03RuleText(m)}
 	// every derived string is a candidate witness: whether it is accepted is
 	// decided in the check by the rule's own compiled matcher, not by the
